@@ -190,6 +190,8 @@ impl Loca { #[verifier::external_body] pub fn localize(&self, locale: Option<&st
 // ------------------------------------------------------------------ crypto / cookie / json
 pub uninterp spec fn rsa_decrypt(ct: Seq<u8>) -> Result<Vec<u8>, CryptoError>;
 pub uninterp spec fn pub_key() -> Seq<u8>;
+/// "these bytes are what one successful call of the operating-system RNG wrote" (uninterpreted; only `crypto::generate_token` produces it, U12)
+pub uninterp spec fn from_os_rng(bytes: Seq<u8>) -> bool;
 /// what serde_json prints depends on the *content* of a cookie (strings by value), not on object identity
 pub struct AuthView { pub timestamp: u64, pub client_addr: SocketAddr, pub user_name: Seq<char>, pub user_id: Uuid, pub target: Option<Seq<char>>, pub props: Vec<ProfileProperty>, pub extra: ExtraMap }
 pub open spec fn auth_view(c: AuthCookie) -> AuthView {
@@ -210,8 +212,8 @@ pub mod crypto {
     pub use super::CryptoError as Error;
     #[verifier::external_body] pub fn encoded_pub() -> (r: &'static Vec<u8>) ensures r@ == pub_key(), r@.len() <= 0xffff { unimplemented!() }
     #[verifier::external_body] pub fn private_key() -> &'static PrivKey { unimplemented!() }
-    /// fresh random 32 bytes: any value
-    #[verifier::external_body] pub fn generate_token() -> Result<VerifyToken, CryptoError> { unimplemented!() }
+    /// fresh random 32 bytes: any value, marked as the operating-system RNG's output (contract proved on the real function text in unit U12)
+    #[verifier::external_body] pub fn generate_token() -> (r: Result<VerifyToken, CryptoError>) ensures r matches Ok(t) ==> from_os_rng(t@) { unimplemented!() }
     #[verifier::external_body] pub fn generate_keep_alive() -> u64 { unimplemented!() }
     #[verifier::external_body] pub fn decrypt(key: &PrivKey, value: &[u8]) -> (r: Result<Vec<u8>, CryptoError>) ensures r == rsa_decrypt(value@) { unimplemented!() }
     /// contract proved by Kani on the real function text (unit U2b)
